@@ -68,10 +68,25 @@ def report_pair(chk, rule, rel, pr, inst):
     detail = {"mode": pr.mode, "edges": list(pr.n_edges)}
     if pr.assumed:
         detail["loop variable identified with table lookup (iteration-space assumption)"] = pr.assumed
+    if getattr(pr, "flat", None):
+        detail["flat loop variable identified with nested loops"] = pr.flat
+    detail["loop bounds compared"] = getattr(pr, "n_bounds", 0)
     if pr.status == "ok":
         chk.ok(rule, inst, detail=detail)
         chk.count("linear edges compared", pr.n_edges[0])
+        chk.count("loop bounds compared", getattr(pr, "n_bounds", 0))
         chk.count("dgemm edges expanded", pr.n_gemm)
+        return
+    if pr.status == "violation" and getattr(pr, "bound_diffs", None) and not pr.diffs and not pr.kill_diffs:
+        chk.count("loop bounds compared", pr.n_bounds)
+        for which, f_lp, b_lp, tf, tb in pr.bound_diffs:
+            chk.violation(rule, lib_rel(rel), pr.bwd, "loop over %s: %s bound" % (b_lp.name, "lower" if which == "lo" else "upper"),
+                          b_lp.line,
+                          "the two directions apply the same updates over different iteration spaces: the %s bound of "
+                          "the loop over `%s` is `%s` in %s (line %d) but `%s` in %s (line %d); both are computed from "
+                          "the parameters only, so elements are visited by one direction and not by the other" % (
+                              "lower" if which == "lo" else "upper", f_lp.name, tf, pr.fwd, f_lp.line, tb, pr.bwd,
+                              b_lp.line), instance=inst)
         return
     # violation: one finding per pair, keyed by the first offending statement
     lines = []
@@ -90,9 +105,13 @@ def report_pair(chk, rule, rel, pr, inst):
     else:
         fn, construct, line = pr.bwd, "zeroed cells", 0
     nmis = len(pr.diffs)
+    flat = ""
+    if getattr(pr, "flat", None):
+        flat = ("One direction walks a block with the single variable %s; identifying it with `%s` (read off one "
+                "array's index) does not reproduce the other array's index. " % pr.flat[0])
     msg = ("backward is not the transpose of forward: after matching the loop variables, %d linear "
            "update(s) have no mirror image (X = forward input array, Y = forward output array). " % nmis
-           + " || ".join(lines))
+           + flat + " || ".join(lines))
     chk.violation(rule, lib_rel(rel), fn, construct, line, msg[:1800], instance=inst)
 
 
@@ -102,6 +121,9 @@ def rule_c_pairs(chk, tus):
         tu.func(f)
         tu.func(b)
         pr = M.compare_pair(tu, f, tu, b)
+        red = chk.__dict__.setdefault("_c_red", {})
+        red.setdefault(f, []).append(pr.Rf)
+        red.setdefault(b, []).append(pr.Rb)
         report_pair(chk, "c-mirror", rel, pr, "%s / %s" % (f, b))
         single_function_rules(chk, rel, pr)
 
@@ -143,6 +165,8 @@ def rule_c_flagged(chk, tus):
         tu.func(f)
         pr = M.compare_pair(tu, f, tu, f, consts_f={flag: 1}, consts_b={flag: 0}, opaque=opaque, swap=swap)
         pr.fwd, pr.bwd = "%s[%s=1]" % (f, flag), "%s[%s=0]" % (f, flag)
+        red = chk.__dict__.setdefault("_c_red", {})
+        red.setdefault(f, []).extend([pr.Rf, pr.Rb])
         report_pair(chk, "c-dirflag", rel, pr, "%s %s=1 / %s=0" % (f, flag, flag))
         single_function_rules(chk, rel, pr)
 
@@ -405,6 +429,164 @@ def rule_py_dot(chk, tree):
 
 
 # ----------------------------------------------------------------------------
+# py-zeroinit: buffers handed to accumulate-only primitives are initialised
+# ----------------------------------------------------------------------------
+P_SINGLE = dict(flag="bwd", flag_default=False, X=["b0"], Y=["c0"],
+                defn=(SX, "EXXSphGenerator._contract_ao_to_bas_single_"),
+                params=["mol", "b0", "ylm", "c0", "shls_slice", "ao_loc", "ylm_atom_loc", "coords", "atom_coords", "bwd"])
+P_EVALCRHO = dict(dir=False, defn=(SX, "EXXSphGenerator._eval_crho_potential"),
+                  params=["mol", "coords", "cao", "tmp2", "shls_slice", "ao_loc", "ylm"])
+
+
+def union_spec(chk):
+    prims = {}
+    for _, _, _, _, spec in PY_PAIRS:
+        for k, v in spec.prims.items():
+            if "defn" in v or k == "index_map":
+                prims.setdefault(k, v)
+    prims["_contract_ao_to_bas_single_"] = P_SINGLE
+    red = chk.__dict__.get("_c_red", {})
+    cinfo = {}
+    for cname, Rs in red.items():
+        if any(R is None for R in Rs):
+            raise core.AnalysisError("C function %s was not reduced: its accumulate/overwrite mode is unknown" % cname)
+        names = [n for n, _ in Rs[0].params]
+        acc = set().union(*[M.c_accumulated_params(R) for R in Rs])
+        wr = set().union(*[M.c_written_params(R) for R in Rs])
+        pos_w = [i for i, n in enumerate(names) if n in wr]
+        pos_acc = [i for i, n in enumerate(names) if n in acc]
+        prims["libcider:%s" % cname] = dict(dir=True, OUT=pos_w)
+        cinfo[cname] = (pos_w, pos_acc, names)
+    return M.PySpec(prims), cinfo
+
+
+def _fn_params(fn):
+    return [a.arg for a in fn.args.args + fn.args.kwonlyargs if a.arg not in ("self", "cls")]
+
+
+def _bool_defaults(fn):
+    out = {}
+    args = fn.args.args
+    for a, d in zip(args[len(args) - len(fn.args.defaults):], fn.args.defaults):
+        if isinstance(d, ast.Constant) and isinstance(d.value, bool):
+            out[a.arg] = d.value
+    return out
+
+
+class ZeroInit:
+    def __init__(self, chk, tree):
+        self.chk, self.tree = chk, tree
+        self.spec, self.cinfo = union_spec(chk)
+        self.acc = {}        # (prim, direction, overrides) -> set of parameter names accumulated into
+        self.busy = set()
+
+    def trace(self, rel, qn, consts):
+        mod = self.tree.py(rel)
+        fn = M.py_find_def(mod, qn)
+        if fn is None:
+            raise core.AnalysisError("%s vanished from %s" % (qn, rel))
+        cls = qn.split(".")[0]
+        try:
+            tr = M.Tracer(self.spec, mod, fn, consts, lambda nm: M.py_find_def(mod, cls + "." + nm))
+        except M.Irreducible as e:
+            raise core.AnalysisError("%s: %s" % (qn, e))
+        return fn, tr
+
+    def acc_writes(self, e):
+        """buffer roots this event accumulates into without initialising them"""
+        out = []
+        if e.prim.startswith("libcider:"):
+            pos_w, pos_acc, names = self.cinfo[e.prim.split(":", 1)[1]]
+            for k in pos_acc:
+                if k in e.bufs:
+                    out.append((e.bufs[k][0], names[k]))
+            return out
+        p = self.spec.prims.get(e.prim)
+        if not p or "defn" not in p or not isinstance(e.flag, bool) and p.get("flag"):
+            return out
+        rel, qn = p["defn"]
+        fn = M.py_find_def(self.tree.py(rel), qn)
+        over = tuple(sorted((k, v) for k, v in e.statics.items()
+                            if fn is not None and k in _bool_defaults(fn) and v in ("True", "False")))
+        for par in self.summary(e.prim, e.flag if p.get("flag") else p.get("dir"), over):
+            if par in e.bufs:
+                out.append((e.bufs[par][0], par))
+        return out
+
+    def summary(self, prim, direction, over=()):
+        key = (prim, direction, over)
+        if key in self.acc:
+            return self.acc[key]
+        if key in self.busy:
+            return set()
+        self.busy.add(key)
+        p = self.spec.prims[prim]
+        rel, qn = p["defn"]
+        fn0 = M.py_find_def(self.tree.py(rel), qn)
+        if fn0 is None:
+            raise core.AnalysisError("%s vanished from %s" % (qn, rel))
+        consts = dict(_bool_defaults(fn0))
+        consts.update({k: (v == "True") for k, v in over})
+        if p.get("flag"):
+            consts[p["flag"]] = direction
+        fn, tr = self.trace(rel, qn, consts)
+        params = set(_fn_params(fn))
+        res = set()
+        for e in tr.events:
+            for root, _ in self.acc_writes(e):
+                if root in params and not M.zeroed_before(fn, M.names_of_root(tr, root), e.node, tr.fold):
+                    res.add(root)
+        self.busy.discard(key)
+        self.acc[key] = res
+        return res
+
+
+def rule_py_zeroinit(chk, tree):
+    z = ZeroInit(chk, tree)
+    todo = []
+    for label, rel, fq, bq, spec in PY_PAIRS:
+        for qn, consts in ((fq, spec.consts_f), (bq, spec.consts_b)):
+            k = (rel, qn, tuple(sorted(consts.items())))
+            if k not in todo:
+                todo.append(k)
+    todo.append((SX, "EXXSphGenerator._eval_crho_potential", ()))
+    for rel, qn, consts in todo:
+        fn, tr = z.trace(rel, qn, dict(consts))
+        params = set(_fn_params(fn))
+        tag = qn + ("[%s]" % ",".join("%s=%s" % kv for kv in consts) if consts else "")
+        for e in tr.events:
+            for root, par in z.acc_writes(e):
+                inst = "%s: %s <- %s(%s)" % (tag, root, e.prim, par)
+                if root in params:
+                    chk.ok("py-zeroinit", inst + " caller-provided buffer (accumulation is the contract)", nontrivial=False)
+                    continue
+                if root == "<return>" or not root.isidentifier():
+                    continue
+                names = M.names_of_root(tr, root)
+                if M.zeroed_before(fn, names, e.node, tr.fold):
+                    chk.ok("py-zeroinit", inst)
+                    continue
+                # initialised by an earlier overwriting primitive on every path?
+                dom = list(M.dominating_siblings(fn, e.node))
+                init = False
+                for o in tr.events:
+                    if o.order >= e.order or not any(o.node is d for d in dom):
+                        continue
+                    _, w, _ = M._dir_roles(o)
+                    if root in w and root not in [r for r, _ in z.acc_writes(o)]:
+                        init = True
+                if init:
+                    chk.ok("py-zeroinit", inst + " (initialised by an overwriting primitive)")
+                    continue
+                chk.violation("py-zeroinit", rel, qn, e.text, e.line,
+                              "`%s` is passed as parameter `%s` of %s, which only accumulates into it (`+=` / DGEMM "
+                              "BETA=1 on the C side, no initialisation in the wrapper), but %s neither allocates it "
+                              "with np.zeros nor zeroes it (`%s[:] = 0`) on every path before this call: the result "
+                              "is added to whatever the buffer held (previous call, previous spin, np.empty garbage)"
+                              % (root, par, e.prim, qn, root), instance=inst)
+
+
+# ----------------------------------------------------------------------------
 # py-select: direction flag selects a designated C pair; flag forwarded to flagged C functions
 # ----------------------------------------------------------------------------
 import ast  # noqa: E402
@@ -590,8 +772,11 @@ def _analyse_own(chk):
     chk.rule("py-select", "direction flag selects a c-mirror-verified pair with one shared argument list")
     chk.rule("py-branch", "get_transformed_interpolation_terms: fwd / not fwd branches mirror each other")
     chk.guard(rule_py_dot, tree)
+    chk.rule("py-zeroinit", "buffers passed to accumulate-only primitives are fresh zeros or zeroed before the call")
+    chk.guard(rule_py_zeroinit, tree)
     chk.guard(rule_py_select, tree)
     chk.guard(rule_py_branch, tree)
+    chk.floor("py-zeroinit", 14, "accumulate-only outputs in the traced compositions (6 local buffers, rest caller-provided)")
     chk.floor("py-reverse", 28, "primitive calls in the 8 forward compositions + 3 matrix products")
     chk.floor("py-select", 11, "10 flag-selected libcider pairs + 2 forwarded flags")
     chk.floor("py-branch", 4, "transform selection + 3 blocks applying it")
@@ -696,6 +881,50 @@ def mutants(tree):
                "                            p_q[q] += theta_q[q] * f;", expect="c-mirror"),
         Mutant("grid offset dropped in SDMXcontract_ao_to_bas_grid_bwd", S,
                "_ao[g] += _ylm[g] * _vbas[g] * dx[g];", "_ao[g] += _ylm[g] * _vbas[g];", expect="c-mirror"),
+        # ---- round 2: flattened loops, iteration spaces
+        Mutant("forward contract_rad_to_orb flattened over (m,q), stride ignored", C,
+               "                mq = 0;\n                for (m = 0; m < nm; m++) {\n"
+               "                    for (q = 0; q < nalpha; q++, mq++) {\n                        p_q[q] += val * theta_mq[mq];\n"
+               "                    }\n                    p_q += stride;\n                }",
+               "                for (mq = 0; mq < nm * nalpha; mq++) {\n                    p_q[mq] += val * theta_mq[mq];\n"
+               "                }", expect="c-mirror"),
+        Mutant("project_spline_to_conv flattened over (p,q), spline stride ignored", I,
+               "                    for (p = 0; p < 4; p++) {\n                        for (q = 0; q < nalpha; q++) {\n"
+               "                            out_q[q] += inp_q[q] * w_p[p];\n                        }\n"
+               "                        inp_q += spline_stride;\n                    }",
+               "                    for (p = 0; p < 4 * nalpha; p++) {\n"
+               "                        out_q[p % nalpha] += inp_q[p] * w_p[p / nalpha];\n                    }",
+               expect="c-mirror"),
+        Mutant("block length not clipped in SDMXcontract_ao_to_bas_grid_bwd", S,
+               "bgrids = MIN(ip + blksize, ngrids) - ip;", "bgrids = blksize;", count=4, expect="c-mirror"),
+        Mutant("block length not clipped in contract_shl_to_alpha_l1_bwd", S,
+               "bgrids = MIN(blksize, ngrids - ip);", "bgrids = blksize;", count=2, expect="c-mirror"),
+        Mutant("backward loop of add_lp1_term_bwd stops one element early", I,
+               "        for (g = 0; g < n; g++) {\n            dx = coords[3 * g + 0] - atom_coord[0];\n"
+               "            dy = coords[3 * g + 1] - atom_coord[1];\n            dz = coords[3 * g + 2] - atom_coord[2];\n"
+               "            f_q = f + nf * g;\n            f_q[ig] = 0.0;",
+               "        for (g = 0; g < n - 1; g++) {\n            dx = coords[3 * g + 0] - atom_coord[0];\n"
+               "            dy = coords[3 * g + 1] - atom_coord[1];\n            dz = coords[3 * g + 2] - atom_coord[2];\n"
+               "            f_q = f + nf * g;\n            f_q[ig] = 0.0;", expect="c-mirror"),
+        Mutant("DGEMM row count changed in reduce_ylm_to_angc", G,
+               "dgemm_(&NTRANS, &NTRANS, &nalpha, &nw, &nlm,", "dgemm_(&NTRANS, &NTRANS, &nalpha, &nw, &nalpha,",
+               expect="c-mirror"),
+        # ---- round 2: initialisation of accumulate-only outputs
+        Mutant("forward convolution output buffer no longer zeroed", NG, "        conv_vq[:] = 0.0\n", "",
+               expect="py-zeroinit"),
+        Mutant("backward convolution output buffer no longer zeroed", NG, "        vtheta_uq[:] = 0.0\n", "",
+               expect="py-zeroinit"),
+        Mutant("backward projection target no longer zeroed", NG, "        vconv_vq[:] = 0.0\n", "",
+               expect="py-zeroinit"),
+        Mutant("l1 coefficient buffer allocated with np.empty in conv2spline", LI,
+               "            f1_uq = np.zeros((self.l1atco.nao, 3 * self._n1))\n            for i1 in range(self._n1):\n"
+               "                self._fill_l1_coeff_(f_uq, f1_uq, self._n0 + i1, 3 * i1, True)",
+               "            f1_uq = np.empty((self.l1atco.nao, 3 * self._n1))\n            for i1 in range(self._n1):\n"
+               "                self._fill_l1_coeff_(f_uq, f1_uq, self._n0 + i1, 3 * i1, True)", expect="py-zeroinit"),
+        Mutant("EXX backward AO buffer allocated with np.empty", SX, "c0 = np.zeros((mol.nao_nr(), ngrids))",
+               "c0 = np.empty((mol.nao_nr(), ngrids))", expect="py-zeroinit"),
+        Mutant("zeroing of the forward output only when a flag is set", NG, "        conv_vq[:] = 0.0\n",
+               "        if grad_mode:\n            conv_vq[:] = 0.0\n", expect="py-zeroinit"),
         # ---- Python compositions
         Mutant("swap call order in spline2conv", LI,
                "            self._orb2spline_(\n                self.l1atco,\n                f_arlpq,\n                f1_uq,\n"
